@@ -31,12 +31,8 @@ ASSUMPTIONS = [
 
 
 def gtexts(p):
-    out = set()
-    for g, pol in p.guards:
-        t = g if pol else negate(g)
-        for c in conj(t):
-            out.add(canon(c))
-    return out
+    from ..model import path_facts
+    return path_facts(p)
 
 
 def param_default(fi, name):
@@ -54,7 +50,7 @@ def last_store(p, attr):
 def check_ctor_folds(ctx):
     repo = ctx.repo
     rule = 'C19-ctor-defaults'
-    w = repo.walker(inline_depth=ctx.depth, max_paths=ctx.max_paths)
+    w = repo.walker(inline_depth=ctx.depth, max_paths=ctx.max_paths, split_ifexp=True)
     # ---- Int / Bits
     for cname in ('Int', 'Bits'):
         ci = repo.cls(cname)
@@ -105,19 +101,34 @@ def check_ctor_folds(ctx):
     ci = repo.cls('Sequence')
     fi = ci.methods.get('__init__')
     ctx.unit('functions')
-    ok = False
-    for n in ast.walk(fi.node):
-        if isinstance(n, ast.Assign) and canon(n.targets[0]) == 'self.default':
-            v = n.value
-            if isinstance(v, ast.IfExp) and canon(v.test) == '(default is not None)' and canon(v.body) == 'default' and isinstance(v.orelse, ast.List) and not v.orelse.elts:
-                ok = True
-            elif isinstance(v, ast.IfExp) and canon(v.test) == '(default is None)' and canon(v.orelse) == 'default' and isinstance(v.body, ast.List) and not v.body.elts:
-                ok = True
-            st = stmt_text(n)
-            if ok:
-                ctx.holds(rule, fi, st, 'the given list, else a new empty list', n.lineno, clause='a')
+    seen_none = seen_given = False
+    for p in w.paths(fi.node, cls=ci):
+        if p.raises():
+            continue
+        gt = gtexts(p)
+        s_ = last_store(p, 'default')
+        if s_ is None:
+            ctx.violation(rule, fi, 'Sequence.__init__ path [%s]' % '; '.join(sorted(gt))[:100], 'self.default is never set', fi.node.lineno, clause='a')
+            continue
+        v = s_.value
+        if '(default is None)' in gt:
+            if isinstance(v, ast.List) and not v.elts:
+                if not seen_none:
+                    ctx.holds(rule, fi, 'Sequence(default omitted) -> []', 'a new empty list per declaration', s_.lineno, clause='a')
+                seen_none = True
             else:
-                ctx.violation(rule, fi, st, 'expected: default if default is not None else []', n.lineno, clause='a')
+                ctx.violation(rule, fi, 'Sequence(default omitted) -> %s' % canon(v), 'expected: default if default is not None else []', s_.lineno, clause='a')
+        elif '(default is not None)' in gt:
+            if canon(v) == 'default':
+                if not seen_given:
+                    ctx.holds(rule, fi, 'Sequence(default=d) -> d', 'the given list', s_.lineno, clause='a')
+                seen_given = True
+            else:
+                ctx.violation(rule, fi, 'Sequence(default=d) -> %s' % canon(v), 'expected the given default', s_.lineno, clause='a')
+        else:
+            ctx.violation(rule, fi, 'self.default = %s' % canon(v), 'expected: default if default is not None else []', s_.lineno, clause='a')
+    if not (seen_none and seen_given):
+        ctx.violation(rule, fi, 'Sequence.__init__', 'expected a path for the omitted default ([]) and one for a given default', fi.node.lineno, clause='a')
     d = param_default(fi, 'default')
     if not (isinstance(d, ast.Constant) and d.value is None):
         ctx.violation(rule, fi, 'Sequence(default omitted) -> %s' % (canon(d) if d is not None else None), 'the default parameter must default to None', fi.node.lineno, clause='a')
